@@ -10,8 +10,7 @@ PROP = "C03"
 LEVEL = "exploration"
 SHARDS = {"quick": 8, "thorough": 16}
 TIMEOUT = {"quick": 900, "thorough": 7200}
-REQUIRED = {"seed": 800, "master_key": 200, "constructors": 60, "seed_routes": 100, "probe.bip39_seed_from_mnemonic": 100,
-            "probe.master_key": 100}
+REQUIRED = {"seed": 800, "master_key": 200, "constructors": 60, "seed_routes": 100}
 ANCHORS = ['bip39:bip39_seed_from_mnemonic', 'bip32:PrvKeyNode.master_key', 'base_wallet:BaseWallet.from_mnemonic', 'base_wallet:BaseWallet.from_entropy_hex', 'base_wallet:BaseWallet.from_bip39_seed_hex', 'base_wallet:BaseWallet.from_bip39_seed_bytes', 'base_wallet:BaseWallet.from_extended_key', 'base_wallet:BaseWallet.new_wallet']
 RULE = ("mnemonic/passphrase strings assembled from Unicode building blocks for which NFC, NFD, NFKC and NFKD all differ "
         "(precomposed vs combining, ligatures, Angstrom sign, full/half-width, squared units, Hangul syllables vs jamo, CJK "
@@ -159,6 +158,18 @@ def judge_constructors(ctx, case):
             if bool(w.testnet) != tn:
                 bad.append(("%s.wallet_testnet" % name, tn, w.testnet))
             masters[(name, tn)] = (bytes(w.master.private_key.k), bytes(w.master.chain_code))
+            # second hop: what the wallet prints as its master extended private key builds the same wallet again
+            for how in ("node", "wallet"):
+                try:
+                    exported = w.master.extended_private_key() if how == "node" else w.node_extended_private_key(w.master)
+                    w2 = W.from_extended_key(extended_key=exported)
+                    b2 = bridge.compare_node(w2.master, exp, tn, True)
+                    if b2:
+                        bad.append(("%s.reimport_of_export(%s).%s" % (name, how, b2[0][0]), b2[0][1], b2[0][2]))
+                    if len(exported) != 111:
+                        bad.append(("%s.export_length(%s)" % (name, how), 111, len(exported)))
+                except Exception as e:  # noqa
+                    bad.append(("%s.reimport_of_export(%s).raised" % (name, how), exp.fields(), e))
             if name in ("from_entropy_hex", "from_mnemonic"):
                 if w.mnemonic != mn or w.password != p:
                     bad.append(("%s.echo" % name, (mn, p), (w.mnemonic, w.password)))
@@ -244,9 +255,9 @@ def install_probes(ctx):
         ctx.judge("probe.master_key", not bad, {"seed": bytes(seed), "testnet": tn}, exp.fields(), bad, cls="probe",
                   mech="C03.probe.master_key")
 
-    holders = probes.observe_function(inst, b39, "bip39_seed_from_mnemonic", on_seed)
+    holders = probes.try_install(ctx, "observe bip39_seed_from_mnemonic", probes.observe_function, inst, b39, "bip39_seed_from_mnemonic", on_seed) or []
     ctx.extra["seed_fn_holders"] = ["%s.%s" % h for h in holders]
-    probes.observe_method(inst, b32.PrvKeyNode, "master_key", on_master)
+    probes.try_install(ctx, "observe master_key", probes.observe_method, inst, b32.PrvKeyNode, "master_key", on_master)
     return inst
 
 
